@@ -11,35 +11,37 @@ RULE = ("generated functions: nested try/except(typed, bare, as-name)/else/final
         "every outer shape, with a raise point in EVERY clause of both statements; one compiled function is run "
         "under all plans 'the clauses in set P (|P| <= 2, all singles, all/sampled pairs) raise classes c(p) in "
         "{E3,E4,E5}' so that every position raises classes its own / the outer handlers match and do not match, "
-        "incl. bodies that cannot raise; (b) a raise (new / from None / from new / from name / of a name / bare) "
+        "incl. bodies that cannot raise; the same shapes as the body of a 2-iteration loop where a point can "
+        "also break / continue / return (loop-label and return-label interceptors); (b) a raise (new / from None / from new / from name / of a name / bare) "
         "or return/break injected at every position of every shape pair, else clauses reached; (c) random trees "
         "of depth <= 3; (d) hand-written regressions. Every block logs itself and probes sys.exc_info(); each "
         "function is run in three calling contexts (nothing handled, inside a handler, from a generator frame "
         "inside a handler). distinct by (program after plan specialisation, context); non-trivial = at least one "
         "exception is raised while the trace has >= 2 events")
-EXPLANATION = ("theorems: for ALL programs of the statement language without with-blocks (raise / raise from / "
-               "bare raise, try/except typed-bare-as with the implicit deletion, else, finally, loops with "
-               "return/break/continue, probes; any nesting) and all calling contexts, the compiler scheme "
-               "(ExceptionSave/GetException/ExceptionReset/ExceptionSwap, handler temps, the GetException-skipping "
-               "optimisation, the as-name try/finally rewriting) yields the same outcome incl. exception identity, "
-               "the same log (blocks, sys.exc_info() probes with snapshots of every __context__/__cause__/"
-               "__suppress_context__) and the same sys.exc_info() afterwards as CPython's PUSH_EXC_INFO/POP_EXCEPT "
-               "semantics -- unconditionally for the repaired ReraiseStatNode, and for the current code unless the "
-               "zeroed-temps state is reached (refuted with a witness); the top exc_info item is restored exactly "
-               "when nothing is handled underneath or ExceptionSave is repaired (refuted otherwise); finally runs "
-               "once; return in finally swallows. Label level (M_ExcLab): gen mirrors the label allocations and "
-               "assignments of TryExcept/ExceptClause/TryFinally/With/loop code generation over the mutable label state "
-               "(error, return, break, continue label); exec_lab dispatches on the label an exit jumps to; proved for "
-               "ALL statements (with-blocks included), all label states and machine states: the label code leaves by "
-               "exactly the label standing for the scheme's outcome (so the handler set active at each clause position "
-               "is the structural one), labels are restored after each statement, whole functions run_lab = run_sch, "
-               "hence = CPython on the proved fragment; exits of an else clause bypass the statement's own handlers; "
-               "refuted for the variant that switches the error label after the else clause. The running compiler is "
-               "tied to it dynamically (compiled vs run_lab vs CPython on every case) and statically (the error label "
-               "of every block marker in the generated C equals the model's up to an order-preserving renaming). "
-               "partial: with-blocks (WithTransform) are modelled and run in the "
-               "correspondence but not covered by the theorems; except* is differential only (compiled vs CPython, "
-               "no model); tracebacks and yield inside try are excluded.")
+EXPLANATION = ("theorems: for ALL programs of the statement language (raise / raise from / bare raise, try/except "
+               "typed-bare-as with the implicit deletion, else, finally, with-blocks with pass-through / swallowing / "
+               "raising __exit__ (WithTransform), loops with return/break/continue, probes; any nesting) and all calling "
+               "contexts, the compiler scheme (ExceptionSave/GetException/ExceptionReset/ExceptionSwap, handler temps, the "
+               "GetException-skipping optimisation, the as-name try/finally rewriting, the with rewriting and its exit_var "
+               "flag) yields the same outcome incl. exception identity, the same log (blocks, sys.exc_info() probes and "
+               "__exit__ calls with snapshots of every __context__/__cause__/__suppress_context__) and the same "
+               "sys.exc_info() afterwards as CPython's PUSH_EXC_INFO/POP_EXCEPT/WITH_EXCEPT_START semantics -- "
+               "unconditionally for the repaired ReraiseStatNode (the code as it is now), and for the unrepaired one unless "
+               "the zeroed-temps state is reached (refuted with a witness); the top exc_info item is restored exactly when "
+               "nothing is handled underneath or ExceptionSave is repaired (refuted otherwise); finally runs once; return "
+               "in finally swallows. Label level (M_ExcLab): gen mirrors the label allocations and assignments of "
+               "TryExcept/ExceptClause/TryFinally/With/loop code generation over the mutable label state (error, return, "
+               "break, continue label, counter); exec_lab dispatches on the LABEL an exit jumps to; proved for ALL "
+               "statements, all label states and machine states: the label code leaves by exactly the label standing for "
+               "the scheme's outcome (so the handler set active at each clause position is the structural one), labels are "
+               "restored after each statement, whole functions run_lab = run_sch, hence = CPython; exits of an else clause "
+               "bypass the statement's own handlers; refuted for the variant that switches the error label after the else "
+               "clause. The running compiler is tied to it dynamically (compiled vs run_lab vs CPython on every case) and "
+               "statically (the error label of every block marker in the generated C equals the model's up to an "
+               "order-preserving, kind-preserving renaming). partial: except* is differential only (compiled vs CPython, "
+               "no model); label_used / is_terminator driven omission of dead copies and of the Save/Reset pair is not "
+               "modelled (exercised by the generators: bodies without error exit); tracebacks and yield inside try are "
+               "excluded.")
 TRUSTED = ["label model simplifications: break/continue labels always allocated, every finally copy generated, "
            "can_raise=False specialisation (no Save/Reset when the try body has no error exit) not modelled",
            "plan specialisation: a call _h(k) that raises class c == an inline 'raise _new(c)' at that position",
@@ -90,10 +92,15 @@ def _b(n):
     LOG.append("B%d" % n)
 PLAN = {}
 def _h(k):
+    # raise point / exit point: PLAN[k] = exception class number, or 'b' / 'c' / 'r' (the caller
+    # then executes break / continue / return)
     _tick()
     c = PLAN.get(k)
-    if c is not None:
+    if c is None:
+        return 0
+    if isinstance(c, int):
         raise _new(c)
+    return {"b": 1, "c": 2, "r": 3}[c]
 def _t():
     return True
 def _p():
@@ -233,7 +240,7 @@ def toks_stmt(s):
         return [t]
     if t == "log":
         return ["log", str(s[1])]
-    if t == "hit":            # static view of a raise point: a call with an error exit
+    if t in ("hit", "hitx"):  # static view of a raise point: a call with an error exit
         return ["log", str(1000 + s[1])]
     if t == "raise":
         return ["raise"] + [str(x) for x in s[1]] + [str(x) for x in s[2]]
@@ -273,6 +280,14 @@ def src_stmt(s, ind, out):
         out.append(ind + "_p()")
     elif t == "hit":
         out.append(ind + "_h(%d)" % s[1])
+    elif t == "hitx":         # inside a loop: the point can also break / continue / return
+        out.append(ind + "_a = _h(%d)" % s[1])
+        out.append(ind + "if _a == 1:")
+        out.append(ind + "    break")
+        out.append(ind + "elif _a == 2:")
+        out.append(ind + "    continue")
+        out.append(ind + "elif _a == 3:")
+        out.append(ind + "    return 7")
     elif t == "raise":
         w = "_new(%d)" % s[1][1] if s[1][0] == "new" else "x%d" % s[1][1]
         c = s[2]
@@ -553,9 +568,10 @@ HANDLER_LISTS = {
 
 class Tmpl:
     """builds one template program; hits/logs are numbered in source order"""
-    def __init__(self):
+    def __init__(self, in_loop=False):
         self.nlog = 0
         self.nhit = 0
+        self.in_loop = in_loop
         self.points = []        # (hit id, position name)
 
     def blk(self, pos, inner=None, can_raise=True):
@@ -566,7 +582,7 @@ class Tmpl:
         if can_raise:
             self.nhit += 1
             self.points.append((self.nhit, pos))
-            b.append(("hit", self.nhit))
+            b.append(("hitx" if self.in_loop else "hit", self.nhit))
         return b
 
 
@@ -636,21 +652,42 @@ def templates():
                     yield ("tmpl/%s.%s/%s" % (on, ip, inn), prog, t.points)
 
 
-def plans_for(points, rng, npairs, ntriples=0):
+def loop_templates():
+    """the same shapes as the body of a two-iteration loop: every raise point can also break, continue
+    or return (interceptors of the try/except and try/finally statements for the loop labels)"""
+    sh = [x for x in template_shapes() if not x[0].endswith("_q")]
+    for name, pos, build in sh:
+        t = Tmpl(in_loop=True)
+        st = build(t, "o.")
+        yield ("tmpl/loop/%s" % name, [("loop", 2, [st, ("log", 99)]), ("probe",)], t.points)
+    outer = [x for x in sh if x[0] in ("try_t_e", "try_tb_e", "try_b_e_f", "fin", "wsw")]
+    inner = [x for x in sh if x[0] in ("try_t_e", "try_at_e_f", "fin", "wpass")]
+    for on, opos, obuild in outer:
+        for ip in opos:
+            for inn, ipos, ibuild in inner:
+                t = Tmpl(in_loop=True)
+                st = obuild(t, "o.", ip, lambda tt: ibuild(tt, "i."))
+                prog = [("loop", 2, [st, ("log", 99)]), ("probe",)]
+                if names_ok(prog):
+                    yield ("tmpl/loop/%s.%s/%s" % (on, ip, inn), prog, t.points)
+
+
+def plans_for(points, rng, npairs, ntriples=0, exits=False):
     """the empty plan, every single raise point x class, pairs (all of them when npairs is None)"""
     ids = [k for k, _ in points]
+    vals = (3, 4, 5, "b", "c", "r") if exits else (3, 4, 5)
     out = [()]
     for k in ids:
-        for c in (3, 4, 5):
+        for c in vals:
             out.append(((k, c),))
-    pairs = [((a, ca), (b, cb)) for i, a in enumerate(ids) for b in ids[i + 1:] for ca in (3, 4, 5) for cb in (3, 4, 5)]
+    pairs = [((a, ca), (b, cb)) for i, a in enumerate(ids) for b in ids[i + 1:] for ca in vals for cb in vals]
     if npairs is not None and len(pairs) > npairs:
         pairs = rng.sample(pairs, npairs)
     out += pairs
     for _ in range(ntriples):
         if len(ids) >= 3:
             tr = sorted(rng.sample(ids, 3))
-            out.append(tuple((k, rng.choice((3, 4, 5))) for k in tr))
+            out.append(tuple((k, rng.choice(vals)) for k in tr))
     return out
 
 
@@ -660,9 +697,12 @@ def specialise(b, plan):
     out = []
     for s in b:
         t = s[0]
-        if t == "hit":
-            if s[1] in d:
-                out.append(("raise", ("new", d[s[1]]), ("nocause",)))
+        if t in ("hit", "hitx"):
+            v = d.get(s[1])
+            if isinstance(v, int):
+                out.append(("raise", ("new", v), ("nocause",)))
+            elif v is not None:
+                out.append(({"b": "brk", "c": "cont", "r": "ret"}[v],))
         elif t == "try":
             out.append(("try", specialise(s[1], plan), [(pt, nm, specialise(hb, plan)) for pt, nm, hb in s[2]],
                         None if s[3] is None else specialise(s[3], plan)))
@@ -878,7 +918,7 @@ def c_sites(workdir, modname):
         m = re.match(r"^\s+_b\((\d+)\)\s*$", text)
         if m:
             marker[ln] = int(m.group(1))
-        m = re.match(r"^\s+_h\((\d+)\)\s*$", text)
+        m = re.match(r"^\s+(?:_a = )?_h\((\d+)\)\s*$", text)
         if m:
             marker[ln] = 1000 + int(m.group(1))
     with open(os.path.join(workdir, modname + ".c")) as f:
@@ -982,7 +1022,11 @@ def run(ctx):
     for i in range(nrand):
         progs.append(("rand/%d" % i, g.program()))
     tmpl = list(templates())
+    ltmpl = list(loop_templates())
     if quick:
+        lsingle = [t for t in ltmpl if "/" not in t[0][10:]]
+        ltmpl = [t for t in lsingle if t[0][10:] in ("try_at_e_f", "try_tb_e", "fin")] + \
+            ctx.rng.sample([t for t in ltmpl if "/" in t[0][10:]], 2)
         single = [t for t in tmpl if "/" not in t[0][5:]]
         nested = [t for t in tmpl if "/" in t[0][5:]]
         # one nested template per (kind of outer position, inner shape) class, round robin
@@ -1003,6 +1047,7 @@ def run(ctx):
                     seen.add(inn)
                     pick.append(t)
         tmpl = single + pick
+    tmpl = tmpl + ltmpl
     # templates and programs share modules: the fixed cost of a module (Cython start-up, 380 kB of
     # boilerplate C) dominates the build
     everything = []
@@ -1061,10 +1106,11 @@ def run(ctx):
             meta.append((mod, fn, tag, p, c, ()))
     tplans = []
     for (mod, fn, tag, p, points) in tindex:
+        ex = tag.startswith("tmpl/loop/")
         if quick:
-            pl = plans_for(points, ctx.rng, 36)
+            pl = plans_for(points, ctx.rng, 60 if ex else 36, exits=ex)
         else:
-            pl = plans_for(points, ctx.rng, 160, ntriples=20)
+            pl = plans_for(points, ctx.rng, 300 if ex else 160, ntriples=20, exits=ex)
         tplans.append(pl)
         for which in ("cy", "py"):
             cases.append(["c22run.run_plans", [mod, fn, which, [0, 1, 2], [[list(x) for x in q] for q in pl]]])
